@@ -304,7 +304,9 @@ pub fn tree_has_assignment(node: &Node) -> bool {
 /// context to store (a target that is not a string fails with ExpectedString before that).
 pub fn assignment_targets_are_names(node: &Node) -> bool {
     let ok_here = if *node.operator() == Operator::Assign {
-        match node.children().first().map(|c| c.operator()) {
+        // (a hand-edited assignment node with another number of operands is rejected for that by
+        // the mutable entry, before it asks the context to store)
+        node.children().len() == 2 && match node.children().first().map(|c| c.operator()) {
             Some(Operator::VariableIdentifierWrite { .. }) => true,
             Some(Operator::Const {
                 value: Value::String(_),
@@ -312,7 +314,12 @@ pub fn assignment_targets_are_names(node: &Node) -> bool {
             _ => false,
         }
     } else {
-        true
+        // ... and so is a leaf with children
+        node.children().is_empty()
+            || !matches!(
+                node.operator(),
+                Operator::Const { .. } | Operator::VariableIdentifierRead { .. } | Operator::VariableIdentifierWrite { .. }
+            )
     };
     ok_here && node.children().iter().all(assignment_targets_are_names)
 }
@@ -356,8 +363,9 @@ pub fn ref_eval(
     match op {
         RootNode => Ok(args.into_iter().next().unwrap_or(Value::Empty)),
         Const { value } => {
+            // (children hung below a leaf by hand were evaluated above; then the count is wrong)
             if !args.is_empty() {
-                return Err(RefErr::Skip(Skip::Arity("Const with children")));
+                return Err(EvalexprError::wrong_operator_argument_amount(args.len(), 0).into());
             }
             Ok(value.clone())
         },
@@ -370,13 +378,13 @@ pub fn ref_eval(
         },
         VariableIdentifierWrite { identifier } => {
             if !args.is_empty() {
-                return Err(RefErr::Skip(Skip::Arity("identifier with children")));
+                return Err(EvalexprError::wrong_operator_argument_amount(args.len(), 0).into());
             }
             Ok(Value::String(identifier.clone()))
         },
         VariableIdentifierRead { identifier } => {
             if !args.is_empty() {
-                return Err(RefErr::Skip(Skip::Arity("identifier with children")));
+                return Err(EvalexprError::wrong_operator_argument_amount(args.len(), 0).into());
             }
             match env.get(identifier) {
                 Some(v) => Ok(v),
@@ -385,7 +393,7 @@ pub fn ref_eval(
         },
         FunctionIdentifier { identifier } => {
             if args.len() != 1 {
-                return Err(RefErr::Skip(Skip::Arity("function without exactly one argument")));
+                return Err(EvalexprError::wrong_operator_argument_amount(args.len(), 1).into());
             }
             Ok(env.call(identifier, &args[0], d).map_err(RefErr::Skip)??)
         },
@@ -395,7 +403,7 @@ pub fn ref_eval(
                 return Err(EvalexprError::ContextNotMutable.into());
             }
             if args.len() != 2 {
-                return Err(RefErr::Skip(Skip::Arity("assignment without two operands")));
+                return Err(EvalexprError::wrong_operator_argument_amount(args.len(), 2).into());
             }
             let target = match &args[0] {
                 Value::String(s) => s.clone(),
@@ -423,6 +431,14 @@ pub fn ref_eval(
                                 return Err(EvalexprError::expected_boolean(other.clone()).into())
                             },
                         },
+                        Sub | Mul | Div | Mod | Exp => {
+                            for a in [&left, &rhs] {
+                                if !matches!(a, Value::Int(_) | Value::Float(_)) {
+                                    return Err(EvalexprError::expected_number(a.clone()).into());
+                                }
+                            }
+                            d.apply(&plain, &[left, rhs]).map_err(RefErr::Skip)??
+                        },
                         _ => d.apply(&plain, &[left, rhs]).map_err(RefErr::Skip)??,
                     }
                 },
@@ -445,6 +461,16 @@ pub fn ref_eval(
         Not if args.len() == 1 => match &args[0] {
             Value::Boolean(x) => Ok(Value::Boolean(!*x)),
             other => Err(EvalexprError::expected_boolean(other.clone()).into()),
+        },
+        // "the first error wins" inside an operator too: the numeric operators look at their left
+        // operand first (specified here; the arithmetic itself is delegated)
+        Sub | Mul | Div | Mod | Exp if args.len() == 2 => {
+            for a in args.iter() {
+                if !matches!(a, Value::Int(_) | Value::Float(_)) {
+                    return Err(EvalexprError::expected_number(a.clone()).into());
+                }
+            }
+            Ok(d.apply(op, &args).map_err(RefErr::Skip)??)
         },
         Add | Sub | Neg | Mul | Div | Mod | Exp | Eq | Neq | Gt | Lt | Geq | Leq | And | Or
         | Not => Ok(d.apply(op, &args).map_err(RefErr::Skip)??),
